@@ -268,6 +268,29 @@ def run(ctx):
                 continue  # the membership test itself
             r4.check(atom in skips, f"K1b exemption `{atom}`", "a form exempted from the missing-list error is also skipped where choices[list_name] is read",
                      w2j.loc(raise_if), why_fail=f"add_choices_info_to_question skips only under {sorted(skips)}")
+    # K9: index arithmetic (`seq[i + 1]`, `seq[i - 1]`) on the conversion path needs a length argument; the sites of
+    # the tree this rule was written against were read one by one (accepted table, one reason each); a new site
+    # without a recognisable guard is reported
+    K9_ACCEPTED = {
+        ("levenshtein_distance", "v0[j + 1]"): "v0 has n + 1 cells and j ranges over range(n)",
+        ("ErrorCleaner._cleanup_errors", "lines[i - 1]"): "guarded by `i == 0 or ...` / only evaluated for i >= 1; validator path",
+    }
+    for fi in repo.all_functions():
+        if fi.fq not in reach:
+            continue
+        for x in walk_own(fi.node):
+            if isinstance(x, ast.Subscript) and isinstance(x.ctx, ast.Load) and isinstance(x.slice, ast.BinOp) and isinstance(x.slice.op, ast.Add | ast.Sub) \
+                    and isinstance(x.slice.right, ast.Constant) and isinstance(x.slice.right.value, int):
+                key = (fi.qualname, norm(x))
+                base = norm(x.value)
+                gts = guard_texts(x, stop=fi.node)
+                # recognised guards: a slice test `"k" in seq[:-1]` / a len() comparison on the same sequence / an IndexError handler
+                guarded = any((f"{base}[:-1]" in g and not g.startswith("not ")) or f"len({base})" in g for g in gts) or _in_try(x, ("IndexError", "LookupError", "Exception"))
+                if key in K9_ACCEPTED:
+                    r4.ok(f"K9 {fi.qualname}:{norm(x)}", f"accepted: {K9_ACCEPTED[key]}", fi.loc(x))
+                else:
+                    r4.check(guarded, f"K9 {fi.qualname}:{norm(x)}", "index arithmetic is guarded by a length / membership-in-prefix test or an IndexError handler", fi.loc(x),
+                             why_fail=f"guards: {gts}")
     # K2: iteration over a possibly-None slot that another site guards
     guarded, unguarded = [], []
     for fi in repo.all_functions():
@@ -336,6 +359,16 @@ def run(ctx):
                 r4.ok(f"K8 {s.fi.fq}:{norm(s.call)[:60]}", "no explicit keyword can collide with an author-controlled key", s.loc)
     rules.append(r4)
     return rules
+
+
+def _in_try(node, names) -> bool:
+    for a in ancestors(node):
+        if isinstance(a, ast.Try):
+            for h in a.handlers:
+                t = norm(h.type) if h.type is not None else "BaseException"
+                if any(n in t for n in names) or h.type is None:
+                    return True
+    return False
 
 
 def _loop_targets(loop) -> list[str]:
